@@ -4,6 +4,9 @@
 package rockredis
 
 import (
+	"errors"
+	"sync/atomic"
+
 	"github.com/youzan/ZanRedisDB/engine"
 )
 
@@ -104,4 +107,51 @@ func VerifMetaKey(typ string, fullKey []byte) []byte {
 		panic(err)
 	}
 	return k
+}
+
+// ---- expiry seams (C10) -------------------------------------------------------------
+
+// VerifLocalExpiryScan runs one synchronous pass of the local-deletion TTL checker (what
+// localExpiration.applyExpiration does on every tick) and commits what it found.
+func VerifLocalExpiryScan(r *RockDB) error {
+	exp, ok := r.expiration.(*localExpiration)
+	if !ok {
+		return errors.New("not the local_deletion policy")
+	}
+	buf := newLocalBatchedBuffer(r, localBatchedBufSize)
+	defer buf.Destroy()
+	exp.TTLChecker.setNextCheckTime(0, true)
+	stop := make(chan struct{})
+	err := exp.TTLChecker.check(buf, stop)
+	buf.commit()
+	return err
+}
+
+// VerifCompactSweep feeds every stored key/value to the real compaction filter and deletes
+// what it condemns: the most thorough compaction possible. Returns the number of removed keys.
+// (mem and pebble engines do not wire the filter; rocksdb runs it inside real compactions.)
+func VerifCompactSweep(r *RockDB) (int, error) {
+	cf := r.compactFilter
+	if cf == nil {
+		return 0, errors.New("no compaction filter (not the wait_compact policy)")
+	}
+	atomic.StoreInt64(&cf.cachedTimeSec, 0)
+	it, err := r.rockEng.GetIterator(engine.IteratorOpts{})
+	if err != nil {
+		return 0, err
+	}
+	var condemned [][]byte
+	for it.SeekToFirst(); it.Valid(); it.Next() {
+		k := it.Key()
+		if del, _ := cf.Filter(0, k, it.Value()); del {
+			condemned = append(condemned, k)
+		}
+	}
+	it.Close()
+	wb := r.rockEng.NewWriteBatch()
+	defer wb.Destroy()
+	for _, k := range condemned {
+		wb.Delete(k)
+	}
+	return len(condemned), wb.Commit()
 }
